@@ -1297,6 +1297,64 @@ def hoist_walrus(tree):
     return n
 
 
+def _plain_value(e):
+    """names, attribute chains, literals and operators over them (nothing
+    is called)"""
+    if isinstance(e, (ast.Name, ast.Constant)):
+        return True
+    if isinstance(e, ast.Attribute):
+        return _plain_value(e.value)
+    if isinstance(e, ast.BinOp):
+        return _plain_value(e.left) and _plain_value(e.right)
+    if isinstance(e, ast.UnaryOp):
+        return _plain_value(e.operand)
+    return False
+
+
+def inline_with_walrus(tree):
+    """`with a > (x := E): y = x` is `with a > E: y = E`: a name bound by
+    a walrus in a with item, read only in the first statement of the body
+    (nothing can come between), E plain"""
+    n = 0
+    for func in [f for f in ast.walk(tree) if isinstance(
+            f, (ast.FunctionDef, ast.AsyncFunctionDef))]:
+        for w in [x for x in ast.walk(func) if isinstance(
+                x, (ast.With, ast.AsyncWith))]:
+            for it in w.items:
+                ws = [x for x in ast.walk(it.context_expr)
+                      if isinstance(x, ast.NamedExpr)]
+                if len(ws) != 1 or not isinstance(ws[0].target, ast.Name) \
+                        or not _plain_value(ws[0].value) or not w.body:
+                    continue
+                nm = ws[0].target.id
+                uses = [x for x in ast.walk(func) if isinstance(x, ast.Name)
+                        and x.id == nm and x is not ws[0].target]
+                first = {id(x) for x in ast.walk(w.body[0])}
+                if not uses or any(id(u) not in first or not isinstance(
+                        u.ctx, ast.Load) for u in uses) or isinstance(
+                            w.body[0], (ast.With, ast.AsyncWith, ast.For,
+                                        ast.While, ast.If, ast.Try)):
+                    continue
+                val = ws[0].value
+
+                class R(ast.NodeTransformer):
+                    def visit_NamedExpr(self, node):
+                        if node is ws[0]:
+                            return val
+                        return self.generic_visit(node)
+
+                    def visit_Name(self, node):
+                        if node.id == nm and isinstance(node.ctx, ast.Load):
+                            from copy import deepcopy
+                            return ast.copy_location(deepcopy(val), node)
+                        return node
+                it.context_expr = R().visit(it.context_expr)
+                w.body[0] = R().visit(w.body[0])
+                ast.fix_missing_locations(w)
+                n += 1
+    return n
+
+
 def unwrap_genexp_loops(tree):
     """`for T in (E for V in I if C): B` is `for V in I: if C: T = E; B`
     (one generator, lazily consumed, no name of V bound elsewhere in the
@@ -1410,7 +1468,7 @@ def normalize(tree, modname):
     ref = reference()
     info = {"noise_removed": strip_noise(tree)}
     info["match_lowered"] = lower_match(tree) + hoist_walrus(tree) + \
-        split_divmod(tree)
+        split_divmod(tree) + inline_with_walrus(tree)
     info["reshaped"] = canon_shapes(tree)
     info["rotated"] = rotate_loops(tree) + unwrap_genexp_loops(tree)
     if os.environ.get("SA_CANON_FLOW", "1") == "1":
